@@ -88,7 +88,7 @@ def gen_op(rng, op, sizes, kinds, st):
         code = rng.choice([0, 0, 1, 2, 5, 17, 28, 30, 31]) if rng.chance(1, 3) else 0
         k = rng.weighted(kinds)
         st["live"] += 0 if k == "d" else 1
-        return "a %d %d %s" % (rng.choice(sizes), code, k)
+        return "%s %d %d %s" % ("z" if rng.chance(1, 12) else "a", rng.choice(sizes), code, k)
     if op == "f":
         st["live"] = max(0, st["live"] - 1)
         return "f %d" % rng.below(1 << 16)
